@@ -45,10 +45,10 @@ pub enum ShiftKind {
 
 pub fn shift(kind: ShiftKind) -> PShift {
     match kind {
-        ShiftKind::Closed => PShift { start_loc: 0, start_earliest: 0., start_latest: None, end: Some((0, 1000.)), breaks: vec![], reloads: vec![] },
-        ShiftKind::Open => PShift { start_loc: 0, start_earliest: 0., start_latest: None, end: None, breaks: vec![], reloads: vec![] },
-        ShiftKind::TightEnd => PShift { start_loc: 0, start_earliest: 0., start_latest: None, end: Some((0, 160.)), breaks: vec![], reloads: vec![] },
-        ShiftKind::StartLatest => PShift { start_loc: 0, start_earliest: 0., start_latest: Some(0.), end: Some((0, 1000.)), breaks: vec![], reloads: vec![] },
+        ShiftKind::Closed => PShift { start_loc: 0, start_earliest: 0., start_latest: None, end: Some((0, 1000.)), breaks: vec![], reloads: vec![], required_breaks: vec![] },
+        ShiftKind::Open => PShift { start_loc: 0, start_earliest: 0., start_latest: None, end: None, breaks: vec![], reloads: vec![], required_breaks: vec![] },
+        ShiftKind::TightEnd => PShift { start_loc: 0, start_earliest: 0., start_latest: None, end: Some((0, 160.)), breaks: vec![], reloads: vec![], required_breaks: vec![] },
+        ShiftKind::StartLatest => PShift { start_loc: 0, start_earliest: 0., start_latest: Some(0.), end: Some((0, 1000.)), breaks: vec![], reloads: vec![], required_breaks: vec![] },
     }
 }
 
@@ -419,8 +419,8 @@ pub fn family_cond(_tier: Tier) -> Vec<PProblem> {
     }
     // two shifts per vehicle
     for n in 2..=4 {
-        let s1 = PShift { start_loc: 0, start_earliest: 0., start_latest: None, end: Some((0, 100.)), breaks: vec![], reloads: vec![] };
-        let s2 = PShift { start_loc: 0, start_earliest: 300., start_latest: None, end: Some((0, 500.)), breaks: vec![], reloads: vec![] };
+        let s1 = PShift { start_loc: 0, start_earliest: 0., start_latest: None, end: Some((0, 100.)), breaks: vec![], reloads: vec![], required_breaks: vec![] };
+        let s2 = PShift { start_loc: 0, start_earliest: 300., start_latest: None, end: Some((0, 500.)), breaks: vec![], reloads: vec![], required_breaks: vec![] };
         let mut jobs = deliveries(n);
         jobs[0].tasks[0].places[0].times = vec![(320., 400.)];
         out.push(base(format!("cond/two-shifts/n{n}"), jobs.clone(), vec![vehicle_type("v", 1, &[2], vec![s1.clone(), s2.clone()])]));
@@ -578,7 +578,7 @@ pub fn family_line12() -> Vec<PProblem> {
                 .filter(|i| *i != depot)
                 .map(|i| job(&format!("job{}", i as i64 - 6), vec![task(Delivery, vec![place(i, 1., &[], None)], &[1])]))
                 .collect();
-            let mut v = vehicle_type("my_vehicle", 2, &[6], vec![PShift { start_loc: depot, start_earliest: 0., start_latest: None, end: None, breaks: vec![], reloads: vec![] }]);
+            let mut v = vehicle_type("my_vehicle", 2, &[6], vec![PShift { start_loc: depot, start_earliest: 0., start_latest: None, end: None, breaks: vec![], reloads: vec![], required_breaks: vec![] }]);
             v.fixed = 10.;
             v.cost_distance = 1.;
             v.cost_time = 1.;
@@ -626,9 +626,9 @@ pub fn family_places(_tier: Tier) -> Vec<PProblem> {
         job("s_mix3", vec![task(Service, vec![place(3, 1., &[(0., 5.)], Some("first")), place(2, 2., &[], None), place(4, 1., &[(0., 5.)], Some("third"))], &[])]),
     ];
     let shifts = [
-        PShift { start_loc: 0, start_earliest: 0., start_latest: None, end: Some((0, 1000.)), breaks: vec![], reloads: vec![] },
-        PShift { start_loc: 0, start_earliest: 0., start_latest: None, end: Some((2, 1000.)), breaks: vec![], reloads: vec![] },
-        PShift { start_loc: 0, start_earliest: 0., start_latest: None, end: None, breaks: vec![], reloads: vec![] },
+        PShift { start_loc: 0, start_earliest: 0., start_latest: None, end: Some((0, 1000.)), breaks: vec![], reloads: vec![], required_breaks: vec![] },
+        PShift { start_loc: 0, start_earliest: 0., start_latest: None, end: Some((2, 1000.)), breaks: vec![], reloads: vec![], required_breaks: vec![] },
+        PShift { start_loc: 0, start_earliest: 0., start_latest: None, end: None, breaks: vec![], reloads: vec![], required_breaks: vec![] },
     ];
     let mut out = vec![];
     for k in 1..=3 {
@@ -743,6 +743,26 @@ pub fn family_timedep() -> Vec<PProblem> {
             second.distances = second.distances.iter().map(|d| d * 2 + if *d == 0 { 0 } else { 7 }).collect();
             p.matrices = vec![first, second];
             out.push(p.fit_matrices());
+        }
+    }
+    out
+}
+
+/// F-reqbreak: required breaks with exact times (judged by the accounting rules and by the break's own rules only: the
+/// schedule around a break which is taken on the road is not replayed).
+pub fn family_reqbreak() -> Vec<PProblem> {
+    use TaskKind::*;
+    let mut out = vec![];
+    for n in [2usize, 3, 4] {
+        for (wi, window) in [(10., 15.), (30., 40.), (60., 80.), (200., 210.)].iter().enumerate() {
+            for duration in [7., 25.] {
+                for fleet in [1usize, 2] {
+                    let mut s = shift(ShiftKind::StartLatest);
+                    s.required_breaks = vec![(window.0, window.1, duration)];
+                    let jobs: Vec<PJob> = (0..n).map(|i| job(&format!("d{i}"), vec![task(Delivery, vec![place(1 + i % 4, 2., &[], None)], &[1])])).collect();
+                    out.push(base(format!("reqbreak/n{n}/w{wi}/d{duration}/f{fleet}"), jobs, vec![vehicle_type("v", fleet, &[4], vec![s])]).fit_matrices());
+                }
+            }
         }
     }
     out
